@@ -73,6 +73,7 @@ def run(tier):
     from .common import Relabel
     hs = [x for x in c20._sites() if x.mod.name.endswith("services.hamiltonian")]
     c20._b_key_params(Relabel(chk, {"C20.b": "C18.a-cache"}), hs)
+    _a_registry_writers(chk)
     _ab_registry(chk)
     _c_linear(chk)
     _d_pointwise(chk)
@@ -266,6 +267,30 @@ def _c_linear(chk):
     out = to_obj_array(Interp(decide=lambda c: False).call_function(PC, "_clean_coordinates", [zc, sp.Rational(1, 10 ** 30)]))
     chk.check(all(sp.expand(S(out[i]) - zc[i]) == 0 for i in range(2)), "C18.c", f"{PC}::_clean_coordinates", "cleaning changes coordinates above the tolerance",
               sample="identity for |Re|,|Im| >= tol")
+
+
+def _a_registry_writers(chk):
+    """A conversion registered at any time can be executed: the conversion service copies the table once, when it is first
+    used; only _PipelineService.register_conversion also updates an already initialised service.  Who-may-write rule: no
+    other code stores into _CONVERSION_REGISTRY."""
+    n = 0
+    for m in ri.all_modules():
+        if "_tests" in m.name or "_CONVERSION_REGISTRY" not in m.source:
+            continue
+        for node in ast.walk(m.tree):
+            tg = None
+            if isinstance(node, ast.Assign) and len(node.targets) == 1 and isinstance(node.targets[0], ast.Subscript):
+                tg = node.targets[0].value
+            elif isinstance(node, ast.Call) and isinstance(node.func, ast.Attribute) and node.func.attr in ("update", "setdefault", "pop", "clear", "__setitem__"):
+                tg = node.func.value
+            if tg is None or not (isinstance(tg, ast.Attribute) and tg.attr == "_CONVERSION_REGISTRY" or isinstance(tg, ast.Name) and tg.id == "_CONVERSION_REGISTRY"):
+                continue
+            n += 1
+            owner = ri.enclosing_function_name(node)
+            chk.check(owner.endswith("_PipelineService.register_conversion"), "C18.a", f"{m.name}::{owner}[writes _CONVERSION_REGISTRY]",
+                      f"{owner} writes the conversion table directly: once the shared conversion service has been initialised (first use of any Hamiltonian) such an entry is "
+                      "never copied into it and to_state() raises 'No conversion path'", sample=f"{owner}: the only writer of the table")
+    chk.floor("writers of the conversion table", n, 1)
 
 
 def generating_function_slots(chk):
